@@ -1123,6 +1123,11 @@ func (s *Session) inputData(seg *segment) error {
 				if !quotaOK {
 					s.status = statusQuotaExhausted
 					log.Debugf("Closing %v because user %s used all the quota", s, userName)
+					// The payload that came with the open session request is
+					// already queued. Nothing of a refused session may reach
+					// the application.
+					s.recvQueue.DeleteAll()
+					s.recvBuf.DeleteAll()
 					s.oLock.Unlock()
 					s.Close()
 					return nil
